@@ -17,6 +17,9 @@ from .alg import UnknownTruth, is_unknown, UNKNOWN, Poly
 from .src import AnalysisError, FuncInfo, ClassInfo, ModuleInfo
 
 
+FALLTHROUGH = object()   # a summary returns this to let the interpreter inline the function after all
+
+
 class RepoRaise(Exception):
     """The interpreted code executed `raise X(...)` / a failing assert."""
 
@@ -306,7 +309,9 @@ class Interp:
         if fr.bound_self is not None:
             args = [fr.bound_self] + list(args)
         if key in self.summaries:
-            return self.summaries[key](self, *args, **kwargs)
+            r = self.summaries[key](self, *args, **kwargs)
+            if r is not FALLTHROUGH:
+                return r
         env = Env(fr.closure)
         self.call_stack.append(fi)
         if len(self.call_stack) > 60:
